@@ -14,7 +14,7 @@ comparison (DESIGN section 3): a signed sum is compared relative to the sum of t
 terms, a clipped difference through the difference itself with an absolute tolerance."""
 import math
 from . import tables as rt
-from ..common import MachineryError
+from ..common import MachineryError, load_pt
 
 ABS_WL = 1.798           # wavelength at which sigma_a is tabulated (docstring: lambda = 1.798 A)
 FOUR_PI_100 = 4.0 * math.pi / 100.0
@@ -25,6 +25,7 @@ OUTPUTS = ("rho_re", "rho_im", "rho_inc", "xs_coh", "xs_abs", "xs_inc", "penetra
 # neutron_wavelength / neutron_energy / neutron_wavelength_from_velocity: E = h^2/(2 m_n lambda^2),
 # lambda = h/(m_n v), h in J s, m_n in kg) evaluated in SI and converted at the end.
 def _si():
+    load_pt()
     from periodictable import constants as c
     h = c.plancks_constant * c.electron_volt            # J s
     m = c.neutron_mass * c.atomic_mass_constant         # kg
@@ -84,6 +85,7 @@ class NeutronData(object):
     """Everything the equations need, from the independent readers."""
 
     def __init__(self):
+        load_pt()
         from periodictable import constants as c
         self.NA = c.avogadro_number
         self.me = c.electron_mass
